@@ -149,6 +149,23 @@ def cases(tier, rng):
                 out.append(("spot", "%s %s lcg %d %d" % (op, f, n, rng.randrange(2**64))))
                 if f == "b" or k < 19:
                     out.append(("spot", "%s %s grid %d %d" % (op, f, n, rng.randrange(2**64))))
+    # sequences of transforms in one thread (the functions are pure: a sequence must equal the composition of the model's
+    # functions; a cache or any other state carried from one call to the next shows up here, and only here)
+    seqs = ["ntt,intt", "intt,ntt", "ntt_noswap,intt_noswap,unscale", "intt_noswap,intt", "intt_noswap,ntt,intt",
+            "ntt_noswap,intt_noswap,unscale,ntt,intt", "intt,intt_noswap,intt", "ntt,ntt_noswap,intt_noswap,intt",
+            "unscale,intt", "intt_noswap,unscale,intt,ntt", "bitreverse_order,intt_noswap,intt", "ntt,ntt,intt,intt"]
+    for k in range(1, 9 if not big else 12):
+        n = 2**k
+        for f in "bx":
+            for sq in seqs:
+                if f == "x" and "unscale" in sq:
+                    continue
+                out.append(("sequence", "seq %s %s lcg %d %d" % (f, sq, n, rng.randrange(2**64))))
+    # the same length after another length (state keyed on the length)
+    for f in "bx":
+        out.append(("sequence", "seq %s intt_noswap,intt lcg 8 %d" % (f, rng.randrange(2**64))))
+        out.append(("sequence", "seq %s intt lcg 16 %d" % (f, rng.randrange(2**64))))
+        out.append(("sequence", "seq %s intt lcg 8 %d" % (f, rng.randrange(2**64))))
     # very large sizes with unit vectors (closed-form spec in the oracle): the proof covers every l <= 31, this keeps the
     # TIE to the code alive beyond the sizes the full model can be run at (index arithmetic that only breaks above 2^18)
     for k in (range(16, 23) if not big else range(16, 25)):
